@@ -22,7 +22,7 @@ func C09(c *core.Ctx) {
 		if fn.Pkg == nil || !strings.HasPrefix(fn.Pkg.Pkg.Path(), core.ModPath+"/fw") {
 			continue
 		}
-		for _, ci := range core.FindCalls(fn, idSendPacket, core.CalleeID{Pkg: "fw/face", Recv: "*", Name: "SendPacket"}) {
+		for _, ci := range core.FindCallsDeep(fn, idSendPacket, core.CalleeID{Pkg: "fw/face", Recv: "*", Name: "SendPacket"}) {
 			nSites++
 			c.Sites++
 			c.Funcs[core.FuncName(fn)] = true
@@ -41,7 +41,7 @@ func C09(c *core.Ctx) {
 			nl := atomNonLocal(recv)
 			lh := atomLocalhostName(pkt, nil)
 			ne := atomNonEmptyName(pkt, nil)
-			res := core.Gate(fn, []ssa.Instruction{ci}, core.Lit{A: nl}, core.Lit{A: ne}, core.Lit{A: lh})
+			res := core.GateDeep(fn, []ssa.Instruction{ci}, core.Lit{A: nl}, core.Lit{A: ne}, core.Lit{A: lh})
 			if res.OK && res.PerLit[0] > 0 && res.PerLit[2] > 0 {
 				c.Ok("R9.1", key, c.Pos(ci), fmt.Sprintf("drop gate nonlocal(recv)∧nonempty(name)∧localhost(name) found (%d pass edges); SendPacket unreachable once they are removed", res.PassEdges))
 			} else if res.OK {
@@ -62,7 +62,7 @@ func C09(c *core.Ctx) {
 		pkt := ssa.Value(fn.Params[1])
 		// the incoming face: GetFace(*pkt.IncomingFaceID)
 		var face ssa.Value
-		for _, ci := range core.FindCalls(fn, idGetFace) {
+		for _, ci := range core.FindCallsDeep(fn, idGetFace) {
 			a := ci.Common().Args[0]
 			if u, ok := core.Strip(a).(*ssa.UnOp); ok && u.Op == token.MUL {
 				if base, ok := core.FieldOf(u.X, "IncomingFaceID"); ok && core.Same(base, pkt) {
@@ -96,7 +96,7 @@ func C09(c *core.Ctx) {
 		nl := atomNonLocal(face)
 		lh := atomLocalhostName(pkt, nil)
 		ne := atomNonEmptyName(pkt, nil)
-		res := core.Gate(fn, effects, core.Lit{A: nl}, core.Lit{A: ne}, core.Lit{A: lh})
+		res := core.GateDeep(fn, effects, core.Lit{A: nl}, core.Lit{A: ne}, core.Lit{A: lh})
 		key := "inbound-gate:" + name
 		switch {
 		case len(effects) < 4:
@@ -113,7 +113,7 @@ func C09(c *core.Ctx) {
 	// ---- R9.3a: sendFrame is only called inside fw/face.
 	nFrame := 0
 	for _, fn := range p.Funcs() {
-		for _, ci := range core.FindCalls(fn, core.CalleeID{Pkg: "fw/face", Recv: "*", Name: "sendFrame"}) {
+		for _, ci := range core.FindCallsDeep(fn, core.CalleeID{Pkg: "fw/face", Recv: "*", Name: "sendFrame"}) {
 			nFrame++
 			ok := fn.Pkg != nil && fn.Pkg.Pkg.Path() == core.ModPath+"/fw/face"
 			c.Decide(ok, "R9.3", "sendFrame-caller:"+core.FuncName(fn), c.Pos(ci), "sendFrame called from the link service", "sendFrame called from outside fw/face: a frame can leave a face without passing the forwarder's scope gates")
@@ -167,7 +167,7 @@ func C09(c *core.Ctx) {
 				}
 				key = fmt.Sprintf("%s:=%d", key, k)
 				if k == 1 {
-					res := core.Gate(fn, []ssa.Instruction{in}, core.Lit{A: isLoop, Want: true})
+					res := core.GateDeep(fn, []ssa.Instruction{in}, core.Lit{A: isLoop, Want: true})
 					c.Decide(res.OK && res.PassEdges > 0, "R9.3", key, c.Pos(in), "scope=Local stored only on the IsLoopback() true edge", "scope=Local stored on a path where the remote address was not found to be loopback")
 				} else {
 					c.Ok("R9.3", key, c.Pos(in), "stores NonLocal/Unknown (never widens trust)")
